@@ -32,6 +32,9 @@ def tree_view(n, flags=('prio',), md=False):
         d['src'] = n.ayns.source_file
     if md:
         d['md'] = util.typed(dict(n.ayns.metadata))
+    if 'attrs' in flags:
+        # public instance attributes (ref_point, filenames, persistent_namespace, ...)
+        d['attrs'] = tuple(sorted((k, _attr_val(v)) for k, v in vars(n).items() if not k.startswith('_') and k != 'builder'))
     if isinstance(n, ComposedNode):
         if isinstance(n, FunctionNode):
             f = n._func
@@ -44,16 +47,24 @@ def tree_view(n, flags=('prio',), md=False):
         d['ch'] = tuple(ch)
         for extra in ('ref_point', 'filenames'):
             if hasattr(n, extra):
-                d[extra] = repr(getattr(n, extra))
+                d[extra] = _attr_val(getattr(n, extra))
     else:
         for extra in ('filenames',):
             if hasattr(n, extra):
-                d[extra] = repr(getattr(n, extra))
+                d[extra] = _attr_val(getattr(n, extra))
         try:
             d['v'] = util.typed(n.ayns.native_value)
         except Exception:
             d['v'] = ('str', str(n)) if isinstance(n, str) else ('repr', type(n).__name__)
     return tuple(sorted(d.items(), key=lambda kv: kv[0]))
+
+
+def _attr_val(v):
+    if isinstance(v, (list, tuple)):
+        return tuple(str(x) for x in v)
+    if isinstance(v, (str, int, float, bool, type(None))):
+        return repr(v)
+    return type(v).__name__
 
 
 def sub_view(view, path):
